@@ -63,6 +63,7 @@ struct vsim_engine {
   int rep_timeout_ms = 30000;
   long rep_msgs_sent = 0, rep_msgs_recv = 0, rep_barriers = 0, rep_errors = 0;
   long rep_in_parallel = 0;                    // (C14) replica calls made from inside the parallel loop over the biases
+  long rep_die_after = -1;                     // (C14) "repdie N": the process ends at its (N+1)-th replica call from now (before performing it)
   bool in_biases_loop = false;
   std::vector<int> assign;                     // (C12) explicit thread of the k-th executed item (default: k mod nthreads)
   std::vector<std::pair<std::string, double> > script_forces;  // (C12) scripted-force task: force added to named scalar variables
@@ -281,9 +282,16 @@ public:
     if (len > buf_len) return -1;                   // as MPI_Recv: a message longer than the buffer is an error (MPI_ERR_TRUNCATE)
     return keep;
   }
+  void rep_maybe_die()
+  {
+    if (eng->rep_die_after < 0) return;
+    if (eng->rep_die_after == 0) _exit(9);       // a walker that dies inside an exchange round: no output, no state file
+    eng->rep_die_after--;
+  }
   int replica_comm_send(char *msg_data, int msg_len, int dest_rep) override
   {
     if (!rep_on()) return COLVARS_NOT_IMPLEMENTED;
+    rep_maybe_die();
     if (eng->in_biases_loop) eng->rep_in_parallel++;
     if (!rep_send_frame(dest_rep, 'D', msg_data, msg_len)) { eng->rep_errors++; return 0; }
     eng->rep_msgs_sent++;
@@ -292,6 +300,7 @@ public:
   int replica_comm_recv(char *msg_data, int buf_len, int src_rep) override
   {
     if (!rep_on()) return COLVARS_NOT_IMPLEMENTED;
+    rep_maybe_die();
     if (eng->in_biases_loop) eng->rep_in_parallel++;
     int r = rep_recv_frame(src_rep, 'D', msg_data, buf_len);
     if (r < 0) { eng->rep_errors++; return 0; }
@@ -301,6 +310,7 @@ public:
   void replica_comm_barrier() override
   {
     if (!rep_on()) return;
+    rep_maybe_die();
     if (eng->in_biases_loop) eng->rep_in_parallel++;
     eng->rep_barriers++;
     char c = 0;
@@ -720,6 +730,7 @@ struct vsim_session {
       }
     }
     else if (cmd == "reptimeout") { eng.rep_timeout_ms = atoi(a[0].c_str()); }
+    else if (cmd == "repdie") { eng.rep_die_after = atol(a[0].c_str()); }
     else if (cmd == "repstat") {
       o << "REPSTAT index=" << eng.rep_index << " num=" << eng.rep_num << " sent=" << eng.rep_msgs_sent
         << " recv=" << eng.rep_msgs_recv << " barriers=" << eng.rep_barriers << " errors=" << eng.rep_errors << " parallel=" << eng.rep_in_parallel << "\n";
